@@ -533,16 +533,17 @@ def run(ctx):
     for algo, ncls in TREE_ALGOS.items():
         if algo not in ctx.model.classes or ncls not in ctx.model.classes:
             raise AnalysisError("%s / %s not found" % (algo, ncls))
-        check_u(ctx, algo, ncls)
-        ctor_params_flow(ctx, algo)
-        check_call_bindings(ctx, algo, ncls)
-        check_update_uvalue_tree(ctx, algo)
+        fa = ctx.model.cls(algo).file
+        ctx.attempt("R05-U", fa, "%s.compute_u_value" % ncls, "U-value", check_u, ctx, algo, ncls)
+        ctx.attempt("R05-PARAM", fa, "%s.__init__" % algo, "parameters", ctor_params_flow, ctx, algo)
+        ctx.attempt("R05-PARAM", fa, algo, "call bindings", check_call_bindings, ctx, algo, ncls)
+        ctx.attempt("R05-U", fa, "%s.updateUvalueTree" % algo, "full sweep", check_update_uvalue_tree, ctx, algo)
         if algo != "T_HOO":
-            delta_sites(ctx, algo)
-            check_tau(ctx, algo)
-        check_backward(ctx, algo)
-        check_descent(ctx, algo)
-        check_fresh(ctx, algo)
+            ctx.attempt("R05-DELTA", fa, algo, "delta~", delta_sites, ctx, algo)
+            ctx.attempt("R05-TAU", fa, algo, "thresholds", check_tau, ctx, algo)
+        ctx.attempt("R05-B", fa, "%s.updateBackwardTree" % algo, "B recursion", check_backward, ctx, algo)
+        ctx.attempt("R05-DESCENT", fa, "%s.optTraverse" % algo, "descent", check_descent, ctx, algo)
+        ctx.attempt("R05-FRESH", fa, "%s.updateAllTree" % algo, "refresh order", check_fresh, ctx, algo)
     return dict(
         explanation=(
             "For T-HOO, HCT and VHCT: (U) compute_u_value is summarised symbolically (two cases: never pulled -> infinite U; pulled -> "
